@@ -759,4 +759,3 @@ func (g *gen) rewriteSelect(c *astutil.Cursor, n *ast.SelectStmt) {
 	g.selSwitch[blk] = sw
 	c.Replace(blk)
 }
-
